@@ -342,11 +342,267 @@ def bounds_checks(ctx, tier, rng):
     ctx.correspond("bounds (rows kept, order)", cases)
 
 
+
+# ------------------------------------------------------------------------------------------------ (d)
+class RawTok(object):
+    """what the instrumented `ast.literal_eval` hands back: the raw token text"""
+
+    def __init__(self, text):
+        self.text = text
+
+
+class Nothing(object):
+    """a dataset without anything (a real empty DatasetType still answers `ds[""]` with itself)"""
+
+    def __getitem__(self, key):
+        raise KeyError(key)
+
+
+class Spies(dict):
+    """`functions[name]` for any name: the function answers with the call tree it was given"""
+
+    def __missing__(self, name):
+        return lambda dataset, *args: ("call", name, list(args))
+
+
+def server_tree(ds, id_, raw=False):
+    """the call tree `eval_function` evaluates for an id string.  raw=False: on the real dataset, leaves are what the
+    server function receives.  raw=True: on an empty dataset with `ast.literal_eval` (as seen by wsgi/ssf.py) replaced by
+    a recorder, so that every leaf is the raw token text (every dataset lookup fails first: `Nothing`)."""
+    import pydap.wsgi.ssf as ssf
+    from pydap.model import DatasetType
+    if not ssf.FUNCTION.match(id_):
+        return RawTok(id_) if raw else id_
+    if not raw:
+        return ssf.eval_function(ds, id_, Spies())
+    real_ast = ssf.ast
+
+    class FakeAst(object):
+        @staticmethod
+        def literal_eval(tok):
+            return RawTok(tok)
+
+    ssf.ast = FakeAst
+    try:
+        return ssf.eval_function(Nothing(), id_, Spies())
+    finally:
+        ssf.ast = real_ast
+
+
+def raw_sexp(t):
+    if isinstance(t, RawTok):
+        return G.hx(t.text) if all(ord(c) < 128 for c in t.text) else None
+    return "(call %s %s)" % (G.hx(t[1]), " ".join(raw_sexp(x) for x in t[2])) if t[2] else "(call %s)" % G.hx(t[1])
+
+
+PLAIN = "abcxyzABZ019_ .-+:/=<>[]"
+
+
+def gen_leaf(rng, client, in_guard=True):
+    k = rng.choice(["var", "var", "int", "float", "str", "npint", "npfloat", "bigfloat"] + ([] if in_guard else ["exotic"] * 8))
+    if k == "var":
+        vid = rng.choice(["a", "g", "g.v", "g.x", "s", "s.c0", "s.c1", "w"])
+        obj = client
+        for part in vid.split("."):
+            obj = obj[part]
+        return ("var", vid), obj
+    if k == "int":
+        n = rng.choice([0, 1, -1, rng.randint(-99999, 99999)])
+        return ("num", float("%.6g" % n)), n
+    if k == "npint":
+        n = rng.randint(-300, 300)
+        return ("num", float(n)), rng.choice([np.int32, np.int16, np.int64])(n)
+    if k == "float":
+        x = rng.choice([0.5, -2.25, rng.uniform(-100, 100), rng.randint(-50, 50) / 8.0])
+        return ("num", float("%.6g" % x)), x
+    if k == "npfloat":
+        x = rng.randint(-500, 500) / 16.0
+        return ("num", float("%.6g" % x)), rng.choice([np.float32, np.float64])(x)
+    if k == "bigfloat":
+        x = rng.choice([1e6, 1.5e10, 1e-5, -3.25e-7, 123456789.0, 2.0 ** 40])
+        return ("num", float("%.6g" % x)), x
+    if k == "str":
+        t = "".join(rng.choice(PLAIN) for _ in range(rng.randint(0, 6)))
+        return ("str", t), t
+    t = "".join(rng.choice('ab,()"\\ ') for _ in range(rng.randint(1, 5)))
+    return ("str", t), t
+
+
+def gen_call(rng, client, depth, in_guard=True):
+    """-> (sent tree, proxy result)"""
+    name = rng.choice(["f", "g2", "mean", "h_1", "Fn", "bounds", "x.y"])
+    arity = rng.choice([0, 1, 1, 1, 2, 2, 3, 4])
+    sent, args = [], []
+    for _ in range(arity):
+        if depth > 1 and rng.random() < 0.45:
+            t, o = gen_call(rng, client, depth - 1, in_guard)
+        else:
+            t, o = gen_leaf(rng, client, in_guard)
+        sent.append(t)
+        args.append(o)
+    return ("call", name, sent), getattr(client.functions, name)(*args)
+
+
+def same_tree(ds, sent, got):
+    if sent[0] == "call":
+        return isinstance(got, tuple) and got[0] == "call" and got[1] == sent[1] and len(got[2]) == len(sent[2]) \
+            and all(same_tree(ds, a, b) for a, b in zip(sent[2], got[2]))
+    if sent[0] == "var":
+        obj = ds
+        for part in sent[1].split("."):
+            obj = obj[part]
+        return got is obj
+    if sent[0] == "num":
+        return isinstance(got, (int, float)) and not isinstance(got, bool) and float(got) == sent[1]
+    return isinstance(got, str) and got == sent[1]
+
+
+def show_tree(t):
+    from pydap.model import DapType
+    if isinstance(t, tuple) and t and t[0] == "call":
+        return ["call", t[1], [show_tree(x) for x in t[2]]]
+    if isinstance(t, DapType):
+        return "<%s %s>" % (type(t).__name__, t.id)
+    return repr(t)
+
+
+def tree_is_plain(sent):
+    if sent[0] == "call":
+        return not (set(sent[1]) & set("(),")) and all(tree_is_plain(x) for x in sent[2])
+    return sent[0] != "str" or not (set(sent[1]) & set('(),"\\'))
+
+
+def proxy_dataset(rng):
+    from pydap.model import BaseType, DatasetType, GridType, SequenceType
+    ds = DatasetType("d")
+    shape = [rng.randint(1, 3), rng.randint(1, 3)]
+    data = np.arange(shape[0] * shape[1], dtype="i4").reshape(shape)
+    ds["a"] = BaseType("a", data, dims=("y", "x"))
+    g = GridType("g")
+    g["v"] = BaseType("v", data, dims=("y", "x"))
+    g["y"] = BaseType("y", np.arange(shape[0], dtype="i4"), dims=("y",))
+    g["x"] = BaseType("x", np.arange(shape[1], dtype="i4"), dims=("x",))
+    ds["g"] = g
+    s = SequenceType("s")
+    s["c0"] = BaseType("c0")
+    s["c1"] = BaseType("c1")
+    s.data = np.array([(1, 2), (3, 4)], dtype=[("c0", "i4"), ("c1", "i4")]).view(np.recarray)
+    ds["s"] = s
+    ds["w"] = BaseType("w", np.arange(3, dtype="i4"))
+    return ds
+
+
+def proxy_tree_checks(ctx, tier, rng):
+    """the id string of the client's function proxy, evaluated by the server: same call tree, same arguments"""
+    BaseHandler, SSF = load()
+    from pydap.client import open_url
+    cases = []
+    n = 400 if tier == "quick" else 6000
+    ds = proxy_dataset(rng)
+    client = open_url("http://localhost/d", application=SSF(BaseHandler(ds)))
+    for i in range(n):
+        in_guard = rng.random() < 0.85
+        sent, res = gen_call(rng, client, rng.randint(1, 4), in_guard)
+        id_ = res.id
+        case = {"kind": "proxy-tree", "id": id_, "sent": sent}
+        plain = tree_is_plain(sent)
+        try:
+            got = server_tree(ds, id_)
+            ok = same_tree(ds, sent, got)
+            shown = show_tree(got)
+        except Exception as e:
+            ok, shown = False, "%s: %s" % (type(e).__name__, str(e)[:100])
+        if not ok and plain:
+            ctx.oracle_fail("the server evaluates another call tree / other arguments than the client's function proxy was given",
+                            case, shown, sent, size=len(id_))
+        depth = tree_depth(sent)
+        ctx.count(("ptree", id_), True, tag="proxy-tree|%s|depth%d|%s" % (
+            "plain" if plain else "string-with-()-,-quote", depth, "same" if ok else "DIFFERENT"), sample={"id": id_})
+        try:
+            rs = raw_sexp(server_tree(ds, id_, raw=True))
+        except Exception as e:
+            rs = "(err %s)" % type(e).__name__
+        if rs is not None:
+            cases.append(("ssf-parsecall %s" % G.hx(id_), rs, case))
+    # the tokeniser / FUNCTION regexp on arbitrary text (no proxy): character level
+    for i in range(n):
+        id_ = "".join(rng.choice('fg1(),(),." ') for _ in range(rng.randint(1, 14)))
+        try:
+            rs = raw_sexp(server_tree(ds, id_, raw=True))
+        except Exception as e:
+            rs = "(err %s)" % type(e).__name__
+        cases.append(("ssf-parsecall %s" % G.hx(id_), rs, {"kind": "parse-text", "id": id_}))
+        ctx.count(("ptext", id_), True, tag="parse-text|%s" % ("call" if rs.startswith("(call") else "token"))
+    ctx.correspond("eval_function's call tree (raw tokens) of proxy id strings and of arbitrary text", cases)
+
+
+def tuplify(t):
+    return ("call", t[1], [tuplify(x) for x in t[2]]) if t[0] == "call" else (t[0], t[1])
+
+
+def mean_ds_from_info(info):
+    from pydap.model import BaseType, DatasetType, GridType
+    data = np.array(info["data"], dtype=info.get("dt", "i4")).reshape(info["shape"])
+    ds = DatasetType("d")
+    ds["a"] = BaseType("a", data, dims=tuple(info["a_dims"])) if info["a_dims"] else BaseType("a", data)
+    g = GridType("g")
+    g["v"] = BaseType("v", data, dims=tuple(info["dims"]))
+    for d, m in zip(info["dims"], info["maps"]):
+        g[d] = BaseType(d, np.array(m, dtype="i4"), dims=(d,))
+    ds["g"] = g
+    ds["w"] = BaseType("w", np.arange(3, dtype="i4"))
+    return ds
+
+
+def tree_depth(t):
+    return 0 if t[0] != "call" else 1 + max([tree_depth(x) for x in t[2]] or [0])
+
+
+def session_checks(ctx, tier, rng):
+    """the function proxy over a requests session (an adapter dispatching to the WSGI application) vs the raw request"""
+    BaseHandler, SSF = load()
+    from pydap.client import open_url
+    import xdrlib as X
+    n = 25 if tier == "quick" else 250
+    for _ in range(n):
+        ds, info = mean_dataset(rng)
+        app = SSF(BaseHandler(ds))
+        rank = len(info["shape"])
+        axes, r = [], rank
+        for _ in range(rng.randint(1, min(3, rank))):
+            axes.append(rng.randrange(r))
+            r -= 1
+        target = rng.choice(["a", "g"])
+        gz = rng.random() < 0.3
+        case = {"kind": "proxy-session", "info": info, "target": target, "axes": axes, "gzip": gz, "query": ""}
+        try:
+            c = open_url("http://localhost/d", session=X.wsgi_session(app, gz=gz))
+            res_ = c[target]
+            for k in axes:
+                res_ = c.functions.mean(res_, k)
+            case["query"] = res_.id
+            leaf_ = res_["a"] if target == "a" else res_["g"]["v"]
+            cvals = [float(x) for x in np.asarray(leaf_.data).reshape(-1)]
+            raw = G.run_request(app, "/d.dods", res_.id)
+            h2, _, p2 = raw["body"].partition(b"Data:\n")
+            _, d2, _ = G.parse_dds(h2.decode("ascii"))
+            rvals = [float(x) for x in G.decode_dods_values(d2, p2)][:len(cvals)]
+            if cvals != rvals or not cvals:
+                ctx.oracle_fail("function proxy over a requests session returns other values than the raw request", case,
+                                cvals[:20], rvals[:20], size=sum(info["shape"]))
+        except Exception as e:
+            ctx.oracle_fail("function proxy over a requests session raised %s" % type(e).__name__, case, repr(e)[:200],
+                            "the values of the raw request", size=sum(info["shape"]))
+        ctx.count(("psess", repr(info), repr(axes), target, gz), True, tag="proxy-session|%s|depth%d%s" % (target, len(axes), "|gzip" if gz else ""))
+
+
 def explore(ctx, tier, search=False):
     sfx = "-search" if search else ""
     transparency(ctx, tier, ctx.rng("transparency" + sfx))
     mean_checks(ctx, tier, ctx.rng("mean" + sfx))
     bounds_checks(ctx, tier, ctx.rng("bounds" + sfx))
+    proxy_tree_checks(ctx, tier, ctx.rng("proxytree" + sfx))
+    session_checks(ctx, tier, ctx.rng("session" + sfx))
 
 
 def run(ctx):
@@ -372,7 +628,7 @@ def replay(payload):
         print("nothing to replay: %s" % payload.get("no_longer_checks"))
         return False
     c = f["case"]
-    q = c["query"]
+    q = c.get("query", "")
     if c["kind"] == "transparency":
         ds = G.build(c15.spec_from_sexp(c["dataset"]))
         a, b = G.run_request(BaseHandler(ds), c["path"], q), G.run_request(SSF(BaseHandler(ds)), c["path"], q)
@@ -403,6 +659,54 @@ def replay(payload):
         got = [vals[i:i + k] for i in range(0, len(vals), k)]
         print("observed", got, "expected", want)
         return got == want
+    if c["kind"] in ("proxy-tree", "parse-text"):
+        from pydap.client import open_url
+        rng = __import__("random").Random(0)
+        ds = proxy_dataset(rng)
+        client = open_url("http://localhost/d", application=SSF(BaseHandler(ds)))
+
+        def rebuild(t):
+            if t[0] == "call":
+                return getattr(client.functions, t[1])(*[rebuild(x) for x in t[2]])
+            if t[0] == "var":
+                obj = client
+                for part in t[1].split("."):
+                    obj = obj[part]
+                return obj
+            return t[1]
+
+        sent = tuplify(c["sent"])
+        id_ = rebuild(sent).id
+        try:
+            got = server_tree(ds, id_)
+            ok = same_tree(ds, sent, got)
+            print("id %r -> server tree %r" % (id_, show_tree(got)))
+        except Exception as e:
+            ok = False
+            print("id %r -> %s" % (id_, type(e).__name__))
+        return ok
+    if c["kind"] == "proxy-session":
+        from pydap.client import open_url
+        from pydap.model import BaseType, DatasetType, GridType
+        import xdrlib as X
+        ds = mean_ds_from_info(c["info"])
+        app = SSF(BaseHandler(ds))
+        try:
+            cl = open_url("http://localhost/d", session=X.wsgi_session(app, gz=c.get("gzip", False)))
+            res_ = cl[c["target"]]
+            for k in c["axes"]:
+                res_ = cl.functions.mean(res_, k)
+            leaf_ = res_["a"] if c["target"] == "a" else res_["g"]["v"]
+            cvals = [float(x) for x in np.asarray(leaf_.data).reshape(-1)]
+            raw = G.run_request(app, "/d.dods", res_.id)
+            h2, _, p2 = raw["body"].partition(b"Data:\n")
+            _, d2, _ = G.parse_dds(h2.decode("ascii"))
+            rvals = [float(x) for x in G.decode_dods_values(d2, p2)][:len(cvals)]
+            print("proxy over a session", cvals[:8], "raw request", rvals[:8])
+            return bool(cvals) and cvals == rvals
+        except Exception as e:
+            print("proxy over a session raised %s: %s" % (type(e).__name__, e))
+            return False
     # mean / proxy
     from pydap.model import BaseType, DatasetType, GridType
     info = c["info"]
